@@ -6,10 +6,27 @@ import (
 	"sync"
 	"sync/atomic"
 	"time"
-	"unsafe"
 )
 
-func verifSessionID(s *Session) uint64 { return uint64(uintptr(unsafe.Pointer(s))) }
+var (
+	verifSessMu   sync.Mutex
+	verifSessIDs  = map[*Session]uint64{}
+	verifSessNext uint64
+)
+
+// verifSessionID returns a process-unique identifier for the session. The map keeps the session reachable, so
+// an identifier is never reused for another session (addresses would be, after garbage collection).
+func verifSessionID(s *Session) uint64 {
+	verifSessMu.Lock()
+	defer verifSessMu.Unlock()
+	id, ok := verifSessIDs[s]
+	if !ok {
+		verifSessNext++
+		id = verifSessNext
+		verifSessIDs[s] = id
+	}
+	return id
+}
 
 // VerifID returns the identifier used for this session in verifhook events.
 func (s *Session) VerifID() uint64 { return verifSessionID(s) }
